@@ -146,6 +146,22 @@ def run(ctx: Ctx) -> None:
     lru_rule(ctx)
     plru_rule(ctx)
 
+    r = ctx.rule("R10.perset", "every cache set owns its own policy object")
+    ci = m.method("Cache", "__init__", own=True)
+    comps = [n for n in ast.walk(ci.node) if isinstance(n, ast.ListComp) and any(
+        isinstance(c.func, ast.Subscript) and ast.unparse(c.func.value) == "CacheSet" or ast.unparse(c.func) == "CacheSet" for c in calls_in(n))]
+    ok = False
+    if len(comps) == 1:
+        cs_call = next(c for c in calls_in(comps[0]) if ast.unparse(c.func).startswith("CacheSet"))
+        args = list(cs_call.args) + [k.value for k in cs_call.keywords]
+        ok = any(isinstance(a, ast.Call) and ast.unparse(a.func) == "replacement_strategy" and [ast.unparse(x) for x in a.args] == ["associativity"] for a in args)
+    r.check(ok, "Cache.__init__|policy-per-set", ci.loc(), "the policy object is not constructed inside the per-set comprehension "
+            "(`replacement_strategy(associativity)` per CacheSet): sets would share replacement state")
+    cset = m.method("CacheSet", "__init__", own=True)
+    t = " ".join(ast.unparse(cset.node).split())
+    r.check("self.blocks = [CacheBlock[T](2 ** block_bits) for _ in range(associativity)]" in t and "self.replacement_strategy = replacement_strategy" in t,
+            "CacheSet.__init__", cset.loc(), "a set no longer owns `associativity` fresh blocks and the policy it was given")
+
 
 def _pow2_test(t: ast.AST) -> bool:
     """Evaluate the assertion on 0..16 in a tiny interpreter: true exactly on powers of two."""
@@ -289,6 +305,9 @@ def plru_rule(ctx: Ctx) -> None:
         r.inst("PLRU|unrecognised", "not decided")
         return
     r.check(store_ok, "PLRU.access|store", acc.loc(loop), "the direction bit is not stored at the parent node")
+    exits = [n for n in ast.walk(loop) if isinstance(n, (ast.Break, ast.Continue, ast.Return, ast.If))]
+    r.check(not exits, "PLRU.access|every-level", acc.loc(exits[0]) if exits else acc.loc(loop),
+            "the walk from the leaf to the root is conditional / can stop early: an access must set *every* bit on its path")
     r.check(ast.unparse(parent_expr) == f"({iv} - 1) // 2", "PLRU.access|parent", acc.loc(loop),
             f"parent of node i must be (i - 1) // 2; found `{ast.unparse(parent_expr)}`")
     r.check(ast.unparse(loop.iter) == f"range({s0}.tree_depth)", "PLRU.access|depth", acc.loc(loop),
